@@ -8,7 +8,7 @@ def one(d):
     meta = json.load(open(mp))
     tmp = tempfile.mkdtemp(prefix="pysnark-seed-")
     try:
-        p1 = subprocess.Popen(["git", "-C", "/repo", "archive", "HEAD", "pysnark", "examples"], stdout=subprocess.PIPE)
+        p1 = subprocess.Popen(["git", "-C", "/repo", "archive", "HEAD"], stdout=subprocess.PIPE)
         subprocess.check_call(["tar", "-x", "-C", tmp], stdin=p1.stdout); p1.wait()
         subprocess.check_call(["git", "init", "-q"], cwd=tmp)
         r = subprocess.run(["git", "apply", "--whitespace=nowarn", patch], cwd=tmp, capture_output=True, text=True)
